@@ -204,3 +204,29 @@ func vpTimeInt(name string) int64 { return int64(vpDraw(name)) }
 
 // vpF64 draws a float64 (tape carries its IEEE bits).
 func vpF64(name string) float64 { return math.Float64frombits(vpDraw(name)) }
+
+// ---- address tokens (C09). Natively these are the textual forms net.ParseIP/ParseCIDR
+// really parse; in the engine they are opaque tokens whose parse result is the given bytes.
+
+func vpHex16(b []byte) string {
+	s := ""
+	for i := 0; i < 16; i += 2 {
+		if i > 0 {
+			s += ":"
+		}
+		s += fmt.Sprintf("%x", uint16(b[i])<<8|uint16(b[i+1]))
+	}
+	return s
+}
+
+func vpIPToken(name string, ip16 []byte) string { return vpHex16(ip16) }
+
+func vpBadToken(name string, cidr bool) string {
+	if cidr {
+		return "not-an-address-" + name + "/33x"
+	}
+	return "not-an-address-" + name
+}
+
+// vpCIDRToken: ip is what ParseCIDR returns as address, netIP/mask the IPNet fields; natively only the text matters.
+func vpCIDRToken(name string, ip, netIP, mask []byte, text string) string { return text }
